@@ -6,6 +6,21 @@ CHECKS = {
  "C01": dict(level="model_checking", design="§4 C01", technique="explicit-state BFS over call histories on the real MemFS/OrefaFS, Linux kernel (OsFS on tmpfs) as step-by-step oracle",
    text="Every history of <= 2 (quick) / <= 3 (thorough) namespace calls from a ~470-call alphabet over a 2-3 name, depth-2 universe is executed on a fresh real MemFS / OrefaFS and in lock-step through OsFS on tmpfs; outcome (errno) of every call and the full tree after every call are compared; states are deduplicated on the kernel-side tree. Exhaustive within the bound, which is what the property's bounded clause asks for.",
    note="Trusts: Linux 6.x tmpfs as root, Go os package, the overlay transformations (sync shim, ordered map ranges, nextRandom seam). Directory size/nlink not compared. Long random histories (clause ii) not run."),
+ "C03": dict(level="model_checking", design="§4 C03", technique="exhaustive enumeration of (owner, group, mode) configurations x acting users x umasks x calls on the real MemFS, Linux kernel under setfsuid/setfsgid as oracle",
+   text="Every assignment from a covering set of owners, groups and permission bits (incl. sticky/setgid) to the <= 2 (quick) / <= 3 (thorough) nodes on the path(s) of a call, every acting user class, 5 umasks and all path-taking calls (plus File.Chmod/Chown/Truncate/Write/ReadDir) is built by an administrator history on a fresh MemFS and on tmpfs, and the one call under test is compared: allowed/refused, errno, and for created objects the statement's formula (calling uid/gid, perm &^ umask).",
+   note="Kernel decisions taken on a thread with unshare(CLONE_FS) and raw setfsuid/setfsgid, supplementary groups empty; fs.protected_hardlinks policy cases are skipped; created-object owner/mode judged by the statement's formula, not by setgid-directory kernel rules."),
+ "C06": dict(level="model_checking", design="§3 Engine B, §4 C06", technique="stateless DFS over thread interleavings (controlled scheduler at lock-acquisition granularity, iterative preemption bounding) of the real MemFS/OrefaFS; oracle: some sequential order of the same primitive calls, respecting real-time order",
+   text="All unordered pairs (quick) plus triples and 2x2 programs (thorough) of ~35 call templates on colliding names are run under every schedule with <= 2 (quick) / <= 3 (thorough) preemptions; results and final tree of every schedule must equal those of a sequential permutation of the same primitive steps consistent with the observed real-time order; final states also pass the node-graph invariants; temp names must be distinct.",
+   note="Scheduling points only at Lock/RLock of the shimmed mutexes and call boundaries (complete for race-free executions; C08 checks races on the same schedules). Composite helpers (WriteFile, ReadFile, ReadDir) are decomposed into their primitive calls; RemoveAll is not required to be atomic."),
+ "C08": dict(level="model_checking", design="§3 Engine B race mode, §4 C08", technique="the same schedule enumeration on a -race build with a scheduler hand-off invisible to the race detector (norace spin), so the detector judges the program's own synchronisation in every enumerated order",
+   text="All pairs of call templates (MemFS views with and without distinct users, shared OrefaFS), per-view setters, two handles on one file, one shared handle, and path-vs-handle programs are executed under every schedule with <= 1 (quick) / <= 2 (thorough) preemptions in a -race binary; any report of the Go race detector, or a fatal runtime error, is a violation identified by the pair of functions.",
+   note="Trusts the Go race detector; the claim is race freedom within the preemption bound completed, not for free-running 2-16 goroutine stress (sampling, not run)."),
+ "C11": dict(level="model_checking", design="§4 C11", technique="explicit-state BFS over histories interleaving a parent MemFS and (nested) Sub views, twin parent driven with prefixed paths as oracle",
+   text="All histories <= 2 (full alphabet) / <= 3 (core alphabet) (quick; thorough one deeper) of namespace calls and per-view setters through a parent, a view, a nested view (and a root view), compared call by call with a twin parent on Join(dir, Clean('/'+p)); tree equality after every call; nothing outside dir changes; per-view user/umask/cwd isolation.",
+   note="The reference is the parent's own behaviour (shared MemFS defects are not flagged here). Removal/renaming of a view's own root is judged leniently (no panic, nothing outside dir changes)."),
+ "C14": dict(level="model_checking", design="§4 C14", technique="exhaustive enumeration of all trees of a bounded universe x all patterns <= k segments x all WalkDir roots x callbacks skipping/failing at every visit index, against filepath.Glob / os.ReadDir / filepath.WalkDir on an identical tmpfs tree",
+   text="Every tree over 2 names (quick, 1093 trees) / 3 top-level names (thorough), materialised in MemFS, OrefaFS, RoFS, FailFS, BasePathFS and on tmpfs; every pattern of <= 2/3 segments from a 10-segment alphabet (absolute and relative), every directory for ReadDir, every root and every callback behaviour (SkipDir/SkipAll/error at each visit index) for WalkDir, a non-administrator pass for unreadable directories, and the Exists/IsDir/IsEmpty/DirExists helpers against Stat/ReadDir of the same instance.",
+   note="Spelling of Glob results (cleaned vs verbatim) is not compared; DirEntry.Info fields are not compared where the oracle's lazy Info fails."),
  "C05": dict(level="model_checking", design="§4 C05", technique="explicit-state BFS over call histories incl. invalid/aliased operands; injected node-graph invariant checker + public-API walk + frame conditions after every call",
    text="Every history of <= 2 (quick) / <= 3 (thorough) calls from a ~430-call alphabet that includes root, empty, relative, ancestor/descendant and identical operands, on MemFS and OrefaFS (Linux- and Windows-typed), with structural invariants (single parent per directory, stored link counters = directory entries, OrefaFS index = reachable paths), ReadDir/Lstat agreement, Nlink/SameFile agreement and frame conditions checked after every call.",
    note="Trusts the injected read-only checker (hooks/*/verif_hooks.go) and the generous definition of 'entries a call names' (operands, what they resolve to, their subtrees and hard-link classes)."),
